@@ -111,7 +111,7 @@ fn pattern(rng: &mut Rng, nstates: usize, kind: usize) -> Vec<f64> {
 }
 
 pub fn run(ctx: &mut Ctx) {
-    let n = ctx.n(12000, 200000);
+    let n = ctx.n(12000, 1000000);
     ctx.run_cases("streams", n, false, |ctx, rng, idx| {
         let nstates = if idx % 11 == 0 { rng.range(1, 3) } else { rng.range(1, 60) };
         let vlen = rng.range(1, 4);
